@@ -226,6 +226,39 @@ def run_case(case):
             if A is None or An == "zero":
                 if rel(LA - L, L) > tol:
                     res.violate("zero-potential-differs-from-scalar-laplacian", A=An, **ctx, detail=det)
+    # the same identities for the operators held by a MeshOperators object after a history of (partial) refreshes
+    if case["areas"] == "one":
+        from tdgl.finite_volume.operators import MeshOperators
+        from tdgl.solver.options import SparseSolver
+
+        mesh = base
+        a = mesh.areas
+        half = A_set["uni"].copy()
+        half[m // 2 :] = A_set["lin"][m // 2 :]
+        one = A_set["rnd"].copy()
+        one[m // 3] = [0.4, 0.2]
+        seqs = [["rnd", "one"], ["uni", "half", "lin"], ["lin", "half", "zero"], ["rnd", "zero"], ["wrap", "one", "half", "zero"]]
+        pots = dict(A_set, half=half, one=one)
+        for seq in seqs:
+            ops = MeshOperators(mesh, SparseSolver.SUPERLU)
+            for nm in seq:
+                ops.set_link_exponents(pots[nm])
+                LA = ops.psi_laplacian.toarray()
+                SA = a[:, None] * LA
+                e8 = rel(SA - SA.conj().T, SA)
+                res.residual("hermiticity_after_refresh", e8)
+                res.count("triples")
+                if e8 > tol:
+                    res.violate("covariant-laplacian-not-hermitian", A=nm, areas="one", duals="refreshed", detail=dict(det, history=seq))
+                    break
+                want = build_laplacian(mesh, link_exponents=pots[nm])[0].toarray()
+                if rel(LA - want, want) > tol:
+                    res.violate("covariant-laplacian-entries", A=nm, areas="one", duals="refreshed", detail=dict(det, history=seq))
+                    break
+            if seq[-1] == "zero":
+                L0 = build_laplacian(mesh)[0].toarray()
+                if rel(ops.psi_laplacian.toarray() - L0, L0) > tol or float(np.abs(ops.psi_laplacian.toarray() @ np.ones(n)).max()) > 1e-10 * float(np.abs(L0).max()):
+                    res.violate("refreshed-zero-potential-differs-from-scalar-laplacian", areas="one", duals="refreshed", detail=dict(det, history=seq))
     res.nontrivial = len(base.boundary_indices) < n
     res.outcome = "ok"
     return res
